@@ -101,10 +101,6 @@ func (vhost *VirtualHost) handleConfirms() {
 	confirmsChan := vhost.msgStorageP.ReceiveConfirms()
 	for confirm := range confirmsChan {
 		verifhook.At("relay.beforeCanConfirm")
-		if !confirm.ConfirmMeta.CanConfirm() {
-			verifhook.Taken("store.relay")
-			continue
-		}
 		channel := vhost.srv.getConfirmChannel(confirm.ConfirmMeta)
 		if channel == nil {
 			verifhook.Taken("store.relay")
